@@ -1,10 +1,97 @@
 /- driver ops for property C05 (model side of the correspondence) -/
 import Rsa.Core.Wire
+import Rsa.Core.Folds
 
-open Lean Rsa.Wire
+open Lean Rsa.Wire Rsa.Folds
 
 namespace Rsa.Drv.C05
 
-def handle : Handler := fun _op _j => none
+def fnOf (l : List Nat) : Nat → Nat := fun j => l.getD j 0
+
+def ofNats (l : List Nat) : Json := ofList ofNat l
+
+def isPermOf (a u : List Nat) : Bool := a.length == u.length && uniq a == u
+
+def partJson (o : Obj) (dis : Option (List (List (Option Rat)))) (keepAll : Bool) (p : Part) : Json :=
+  let base := [("rows", ofNats p.rows), ("conds", ofNats p.conds), ("pidx", ofNats p.pidx)]
+  match dis with
+  | none => obj base
+  | some m =>
+    let vecs := extractCoded o (fun r => m.getD r []) keepAll p
+    obj (base ++ [("vecs", ofList (ofList (ofOpt ofRat)) vecs)])
+
+def foldJson (o : Obj) (dis : Option (List (List (Option Rat)))) (keepAll : Bool) (f : Fold) : Json :=
+  obj [("train", partJson o dis keepAll f.train), ("test", partJson o dis keepAll f.test),
+       ("ceil", match f.ceil with | none => Json.null | some c => partJson o dis keepAll c)]
+
+def optNat (j : Json) (k : String) : R (Option Nat) := asOpt asNat (fldD j k Json.null)
+
+def optNats (j : Json) (k : String) : R (Option (List Nat)) :=
+  asOpt (asList asNat) (fldD j k Json.null)
+
+/-- expansion of the fold pattern ids to bootstrap multiplicities (`_internal_cv`) -/
+def expand (boot : Option (List Nat)) (f : Fold) : Fold :=
+  match boot with
+  | none => f
+  | some b =>
+    { f with train := { f.train with pidx := concatSampling b f.train.pidx }
+             test := { f.test with pidx := concatSampling b f.test.pidx } }
+
+def sets (j : Json) : R Json := do
+  let gen ← fld j "gen" >>= asStr
+  let rdesc ← fld j "rdesc" >>= asList asNat
+  let pdesc ← fld j "pdesc" >>= asList asNat
+  let o : Obj := { nR := rdesc.length, nC := pdesc.length, rdesc := fnOf rdesc, pdesc := fnOf pdesc }
+  let ur := uniq rdesc
+  let up := uniq pdesc
+  let dis ← asOpt (asList (asList (asOpt asRat))) (fldD j "dis" Json.null)
+  let boot ← optNats j "boot_pidx"
+  let rsel := (← optNats j "rsel").getD ur
+  let psel := (← optNats j "psel").getD up
+  let pselsO ← asOpt (asList (asList asNat)) (fldD j "psels" Json.null)
+  let drawsJ ← asOpt (asList (asList (asList asNat))) (fldD j "draws" Json.null)
+  let kr ← optNat j "k_rdm"
+  let kp ← optNat j "k_pattern"
+  let k ← optNat j "k"
+  let nr ← optNat j "n_rdm"
+  let np ← optNat j "n_pattern"
+  let draws : List (List Nat × List Nat) := (drawsJ.getD []).filterMap fun d =>
+    match d with
+    | [a, b] => some (a, b)
+    | _ => none
+  let krEff := kOrDefault kr (Rsa.Gen.C05.defaultKRdm ur.length)
+  let psels := pselsO.getD (List.replicate krEff up)
+  -- every supplied shuffle outcome must be a rearrangement of the unique values
+  let selsOk := isPermOf rsel ur && isPermOf psel up && psels.all (isPermOf · up)
+    && draws.all (fun d => isPermOf d.1 ur && isPermOf d.2 up)
+  if !selsOk then throw "shuffle outcome is not a rearrangement of the unique descriptor values"
+  let keepAll := gen == "k_fold_rdm" || gen == "of_k_rdm" || gen == "loo_rdm"
+  let res : Except Err (List Fold) ←
+    match gen with
+    | "k_fold_pattern" => pure (setsKFoldPattern o psel k)
+    | "k_fold_rdm" => pure (setsKFoldRdm o rsel kr)
+    | "k_fold" => pure (setsKFold o rsel kr psels up.length kp)
+    | "of_k_pattern" => pure (setsOfKPattern o psel (k.getD 5))
+    | "of_k_rdm" => pure (setsOfKRdm o rsel (k.getD 5))
+    | "random" => pure (setsRandom o ur.length up.length draws nr np)
+    | "loo_pattern" => pure (.ok (setsLooPattern o up))
+    | "loo_rdm" => pure (.ok (setsLooRdm o ur))
+    | g => throw s!"unknown generator {g}"
+  match res with
+  | .error e => pure (obj [("exc", Json.str e.name)])
+  | .ok folds =>
+    pure (obj [("folds", ofList (fun f => foldJson o dis keepAll (expand boot f)) folds),
+               ("uniq_r", ofNats ur), ("uniq_p", ofNats up)])
+
+def concat (j : Json) : R Json := do
+  let s1 ← fld j "s1" >>= asList asNat
+  let s2 ← fld j "s2" >>= asList asNat
+  pure (ofNats (concatSampling s1 s2))
+
+def handle : Handler := fun op j =>
+  match op with
+  | "c05.sets" => some (sets j)
+  | "c05.concat" => some (concat j)
+  | _ => none
 
 end Rsa.Drv.C05
